@@ -15,6 +15,7 @@ theorem tie_skel_c15_streamPool_getOrOpenStream : Gen.Skel.streamPool_getOrOpenS
   "return stream, nil",
   "}",
   "}",
+  "stream.Close()",
   "}",
   "stream, err := p.Session().OpenStream()",
   "if err != nil {",
